@@ -88,6 +88,23 @@ pub fn gen_c02(out: &mut dyn Write, thorough: bool, seed: u64) {
             writeln!(out, "H fct {}^00 Fraw:{},pred:0,setbs:{},pred:0,obs:TBKGIW c02p", m.to_text(), hexs(&text), labels).unwrap();
         }
     }
+    // one sentence object, several contents in a row (constructor / update_raw / update_tokenized / update_partial_annotation):
+    // ASCII-only text followed by multi-byte text and back, through every pair of entry points; the tokens are those of the LAST content
+    for _ in 0..(if thorough { 4000 } else { 300 }) {
+        let ascii: String = (0..r.range(1, 6)).map(|_| *r.pick(&['a', 'b', '1', 'Z'])).collect();
+        let n = r.range(1, 6) as usize;
+        let chars: Vec<char> = (0..n).map(|_| *r.pick(&['é', '漢', '𠮷', 'a', 'あ', 'ｶ'])).collect();
+        let tok: String = chars.iter().enumerate().map(|(i, c)| if i > 0 && r.chance(1, 2) { format!(" {c}") } else { c.to_string() }).collect();
+        let part: String = chars.iter().enumerate().map(|(i, c)| if i > 0 { format!("{}{c}", r.pick(&['|', '-', ' '])) } else { c.to_string() }).collect();
+        let raw: String = chars.iter().collect();
+        let first = match r.below(3) { 0 => format!("Fraw:{}", hexs(&ascii)), 1 => format!("Ftok:{}", hexs(&ascii)), _ => format!("Fpart:{}", hexs(&ascii.chars().map(|c| c.to_string()).collect::<Vec<_>>().join("-"))) };
+        let second = match r.below(3) { 0 => format!("tok:{}", hexs(&tok)), 1 => format!("part:{}", hexs(&part)), _ => format!("raw:{}", hexs(&raw)) };
+        writeln!(out, "S {first},{second},obs:TBKGIW c02").unwrap();
+        // … and the other way round: multi-byte content first, ASCII content last
+        let first2 = match r.below(2) { 0 => format!("Ftok:{}", hexs(&tok)), _ => format!("Fpart:{}", hexs(&part)) };
+        let second2 = match r.below(3) { 0 => format!("tok:{}", hexs(&ascii)), 1 => format!("raw:{}", hexs(&ascii)), _ => format!("part:{}", hexs(&ascii.chars().map(|c| c.to_string()).collect::<Vec<_>>().join("|"))) };
+        writeln!(out, "S {first2},{second2},{second},obs:TBKGIW c02").unwrap();
+    }
     // random: longer texts, with tags on some characters
     let count = if thorough { 30000 } else { 1500 };
     for _ in 0..count {
@@ -574,6 +591,30 @@ pub fn gen_c15(out: &mut dyn Write, thorough: bool, seed: u64) {
         all_labels(n - 1, &mut |l| labs.push(l.to_string()));
         for l in labs {
             emit(out, &mut r, t, &l);
+        }
+    }
+    // the sentence reaches its content through an UPDATE after it held a text of other character types (whatever the object remembers
+    // about its previous content must not reach the filters): every entry point first, every update second
+    {
+        let contents = ["12ab", "カタ12", "漢1a字", "2021年", "aあ1ア漢.", "あいう", "777"];
+        let others = ["かな", "ABC", "漢字", "1", "カ", "..", "a1"];
+        for (ci, text) in contents.iter().enumerate() {
+            let chars: Vec<char> = text.chars().collect();
+            for round in 0..(if thorough { 12 } else { 3 }) {
+                let other = others[(ci + round) % others.len()];
+                let labels: Vec<char> = (0..chars.len() - 1).map(|_| *r.pick(&['W', 'W', 'N', 'U'])).collect();
+                let part: String = chars.iter().enumerate().map(|(i, c)| if i == 0 { c.to_string() } else { format!("{}{c}", match labels[i - 1] { 'W' => '|', 'N' => '-', _ => ' ' }) }).collect();
+                let first = match round % 3 { 0 => format!("Fraw:{}", hexs(other)), 1 => format!("Ftok:{}", hexs(other)), _ => format!("Fpart:{}", hexs(&other.chars().map(|c| c.to_string()).collect::<Vec<_>>().join("|"))) };
+                let lab: String = labels.iter().collect();
+                for second in [format!("part:{}", hexs(&part)), format!("raw:{},setbs:{lab}", hexs(text)), format!("tok:{},setbs:{lab}", hexs(text))] {
+                    for t in 1..=6 {
+                        writeln!(out, "S {first},{second},filter:ws:{t},obs:TYBKG c15").unwrap();
+                    }
+                    writeln!(out, "S {first},{second},filter:lb,obs:TYBKG c15").unwrap();
+                    let cl = cluster_lengths(text).iter().map(|x| x.to_string()).collect::<Vec<_>>().join(".");
+                    writeln!(out, "S {first},{second},filter:gc:{cl},obs:TYBKG c15").unwrap();
+                }
+            }
         }
     }
     // long sentences: block seams of any size (uniform character type, all boundaries set, line breaks at seams)
